@@ -292,8 +292,12 @@ def case_fn(case):
             install(case)
             mz = fx.build_model(spec_of(case, order, drop=mol))
             _, dz_, tz, _ = mz.model()
-            r.eq(T_model, np.array(tz, float), 'zero-abundance-neutral', 'zero-abundance', atol=1e-15, rtol=1e-12,
-                 species=mol)
+            tz = np.array(tz, float)
+            # (a layer that is beyond tau = 10 in both runs is within the licensed cut-off in both: the comparison model
+            # is built in one go, so a late-added source may stand at another place in its list)
+            lic_ = (T_model <= math.exp(-10) * (1 + 1e-9)) & (tz <= math.exp(-10) * (1 + 1e-9))
+            r.eq(np.where(lic_, 0.0, T_model), np.where(lic_, 0.0, tz), 'zero-abundance-neutral', 'zero-abundance',
+                 atol=1e-15, rtol=1e-12, species=mol)
     # (vii) store_contributions
     if case['hist'] == 'mcf':
         from taurex.util.output import store_contributions
